@@ -128,6 +128,19 @@ def m_opt_eq(ex, st, args, dest_ty, fname):
     return _opt_eq(ex.deref(args[0], st), ex.deref(args[1], st))
 
 
+def m_opt_ref_eq(ex, st, args, dest_ty, fname):
+    """<Option<&char> as PartialEq>::eq: compares the referents."""
+    a = ex.deref(args[0], st)
+    b = ex.deref(args[1], st)
+    if a[1] != b[1]:
+        return False
+    if a[1] == "None":
+        return True
+    x, y = ex.deref(a[2][0], st), ex.deref(b[2][0], st)
+    r = (x == y)
+    return z3.simplify(r) if is_sym(r) else bool(r)
+
+
 def m_opt_ne(ex, st, args, dest_ty, fname):
     return b_not(_opt_eq(ex.deref(args[0], st), ex.deref(args[1], st)))
 
@@ -384,5 +397,6 @@ COMMON = [
     M(r"^Option::<.*>::is_none$", m_opt_is_none),
     M(r"^Option::<.*>::is_some$", m_opt_is_some),
     M(r"^<Option<char> as PartialEq>::eq$", m_opt_eq),
+    M(r"^<Option<&char> as PartialEq>::eq$", m_opt_ref_eq),
     M(r"^<Option<char> as PartialEq>::ne$", m_opt_ne),
 ]
